@@ -27,6 +27,9 @@ CONSTANTS
   AssumeSafe,       \* Write::assume is callable without `unsafe`
   DerefRef, DerefBox, DerefVec, DerefRc, DerefArc,   \* Write<K<T>>::as_deref()
   IndexUnique,      \* indexing a Write<[T]> / Vec / VecDeque / map yields Write<element>
+  IndexUserImpl,    \* ... and does so for an index type whose Index impl the CLIENT wrote (orphan rules allow
+                    \* `impl Index<LocalIdx> for [Concrete]`): such an impl may return ANY reference, e.g. one
+                    \* carried inside the index value
   FieldThroughDeref,\* field! accepts a value behind a Deref (e.g. &Write<Box<S>> or &Write<&S>)
   UnlockNoWrite,    \* Lock / RefLock / OnceLock can be unlocked from a plain shared reference
   CellHoldsGc,      \* Cell<Gc> / RefCell<Gc> implement Collect (plain cells inside GC objects)
@@ -80,6 +83,11 @@ DerefFact(k) == CASE k = "Ref" -> DerefRef [] k = "Box" -> DerefBox [] k = "Vec"
 AsDeref(c) == /\ c \in caps /\ c.kind \in Kinds /\ DerefFact(c.kind)
               /\ Step({Place("val", TargetOwners(c.kind, c.own))}, <<"as_deref", c.kind>>)
 
+\* indexing with a client-written Index impl: from a capability on ANY indexable container (a throw-away
+\* stack array will do) to a place of the client's choosing, e.g. a lock inside the marked object A
+IndexUser(c) == /\ IndexUserImpl /\ c \in caps
+                /\ Step({Place("lock", {"A"})}, <<"index with a client-written Index impl", c.kind>>)
+
 \* plain shared access (no capability needed): safe code can always READ its way from an object it can
 \* reach to that object's lock places; this only matters if unlocking does not need a capability
 ReadPath(o) == /\ UnlockNoWrite \/ CellHoldsGc
@@ -87,7 +95,7 @@ ReadPath(o) == /\ UnlockNoWrite \/ CellHoldsGc
 
 Next == \/ \E o \in Objs : GcWrite(o) \/ Forge(o) \/ ReadPath(o)
         \/ \E k \in Kinds : FromMutStack(k)
-        \/ \E c \in caps : AsDeref(c) \/ FieldDeref(c) \/ \E k \in Kinds \cup {"lock"} : Field(c, k)
+        \/ \E c \in caps : AsDeref(c) \/ FieldDeref(c) \/ IndexUser(c) \/ \E k \in Kinds \cup {"lock"} : Field(c, k)
 
 Spec == Init /\ [][Next]_vars
 
